@@ -30,7 +30,7 @@ MIN_EVENTS = {
                  "consequence/monotone-inherit": 3000, "consequence/edgeworth-effect": 500},
 }
 ASSUMPTIONS = [
-    "outputs compared with tol = 1e-5*max(1,|kernel|) (float32 layer vs float64 oracle)",
+    "outputs compared with tol = 1e-5*max(1,|kernel|)*max(1, sqrt(#vertices)/8) (float32 dot product over all vertices vs float64 oracle)",
     "clip_inputs=False is exercised only with in-range points (the property claims nothing outside)",
     "inputs are finite float32 with |x| <= 1e6",
 ]
@@ -191,7 +191,9 @@ def run_case(ctx, case):
   for l in labels:
     ctx.cls("point:" + l)
   scale = core.scale_of(w)
-  tol = core.REL_TOL * scale
+  # The output is a float32 dot product over n = prod(sizes) vertices (through a matmul for rank > 7): its honest rounding
+  # error grows like sqrt(n)*eps32*scale (6.9e-5 observed at n = 1024, scale 5 - 113 eps), so the tolerance does too.
+  tol = core.REL_TOL * scale * max(1.0, np.sqrt(n) / 8.0)
   w64 = w.astype(np.float64)
   oracle = ol.hypercube if interp == "hypercube" else ol.simplex
   ref = np.stack([oracle(w64[:, u:u + 1], sizes, x[:, u, :].astype(np.float64), clip)[:, 0]
